@@ -462,8 +462,14 @@ def hunted_wrappers(R, L, rng, quick):
     bodies = [('library', rc.make_library(rng.randbytes(32))), ('pruned', rc.make_pruned(leaf, 1)), ('merkle-proof', rc.make_merkle_proof(rc.make_pruned(leaf, 1))),
               ('merkle-update', rc.make_merkle_update(rc.make_pruned(leaf, 1), rc.make_pruned(rc.RC('11'), 1)))]
     for bname, body in bodies:
-        for rep in range(3 if quick else 20):
+        for rep in range(7 if quick else 30):
             msg = {'info': g_info(rng), 'init': g_state_init(rng) if rng.random() < 0.4 else None, 'body': body}
+            if rep >= 3:
+                # tight on references: the header's extra-currency dictionary and a state-init with code, data and library take all four references of the root when
+                # the state-init is inline; the exotic body (which can only go by reference) then needs the state-init moved into a reference
+                msg = {'info': g_info(rng, 'int_msg_info', n_extra=rng.randint(1, 3)) if rep % 2 else g_info(rng, rng.choice(['ext_in_msg_info', 'ext_out_msg_info'])),
+                       'init': g_state_init(rng, ['code', 'data', 'library'] + (['special'] if rep % 3 == 0 else [])), 'body': body}
+                R.count('exotic_body_tight_reference_cases')
             W = dict(describe(msg), body_kind=bname)
             st, cell = mon.call(lambda: L.message(msg).serialize())
             R.counters['oracle_evaluations'] += 1
